@@ -7,6 +7,7 @@
 //   group 6  column-major leaves; raw-triple constructors (c13_mkarr), compute_offset (c13_koff)
 //   groups 7, 8  second halves of the depth 2 / depth 3 compositions
 //   group 9  binary ufuncs with BOTH operands views, reductions over them
+//   groups 10, 11  NUMBER-valued sub-views (reduction over all axes: axis None, keepdims false) as operands of binary ufuncs
 #include "c13_kernel.hpp"
 #include "nmtools/array/view/cumsum.hpp"
 #include "nmtools/array/view/hstack.hpp"
@@ -33,6 +34,8 @@ using namespace c13;
 #endif
 #define KEEP nm::None, nm::None, nm::True
 #define DROP nm::None, nm::None, nm::False
+#define SUMALL(x) view::reduce_add(x, nm::None)
+#define MAXALL(x) view::reduce_maximum(x, nm::None)
 
 static std::string kern(const Args& a) {
     auto prog = get(a, "prog");
@@ -109,6 +112,23 @@ static std::string kern(const Args& a) {
     PROG2("sum_add_neg_neg", view::reduce_add(view::add(view::negative(x0), view::negative(x1)), AXIS, DROP))
     PROG4("max_mul_add",     view::maximum(view::multiply(x0, x1), view::add(x2, x3)))
     PROG4("neg_add_mul_mul", view::negative(view::add(view::multiply(x0, x1), view::multiply(x2, x3))))
+#elif C13_GROUP == 10
+    // a number-valued view (0-d, broadcasts like a scalar) as the first / a non-first operand of a broadcasting binary ufunc
+    // (non-first: known finding extract.nonfirst-view-operand on the device path)
+    PROG2("mul_sumall_x",     view::multiply(SUMALL(x0), x1))
+    PROG2("sub_maxall_x",     view::subtract(MAXALL(x0), x1))
+    PROG2("add_x_maxall",     view::add(x0, MAXALL(x1)))
+    PROG1("sub_sumall_x_rep", view::subtract(SUMALL(x0), x0))      // repeated leaf
+    PROG1("sub_x_sumall_rep", view::subtract(x0, SUMALL(x0)))
+    // a number LITERAL operand in either position (held by value in the extracted operand tuple, passed to the kernel as it is)
+    PROG1("add_x_lit",        view::add(x0, (int)integer(a,"lit")))
+    PROG1("mul_lit_x",        view::multiply((int)integer(a,"lit"), x0))
+    PROG2("neg_add_mul_x_lit_x", view::negative(view::add(view::multiply(x0, (int)integer(a,"lit")), x1)))
+#elif C13_GROUP == 11
+    PROG3("neg_mul_sumall_mul_x", view::negative(view::multiply(SUMALL(view::multiply(x0, x1)), x2)))
+    PROG3("add_mul_sumall_x_x",   view::add(view::multiply(SUMALL(x0), x1), x2))
+    PROG2("tr_add_maxall_x",      view::transpose(view::add(MAXALL(x0), x1), AXES))
+    PROG3("mul_x_sumall_mul",     view::multiply(x0, SUMALL(view::multiply(x1, x2))))
 #elif C13_GROUP == 6
     // same programs over column-major host arrays: context_t::create_array accepts any non-view ndarray
     PROG1("transpose_col", view::transpose(x0, AXES))
